@@ -48,8 +48,12 @@ def gen_case(rng, max_ops):
                 return None if rng.random() < 0.3 else int(rng.integers(-T - 2, T + 3))
             step = None if rng.random() < 0.5 else int(rng.choice([1, 2, 3, -1, -2]))
             a, b = ri(), ri()
-            ops.append(['S', k, a, b, step])
             idx = list(range(T))[slice(a, b, step)]
+            if idx and rng.random() < 0.35:
+                # the same frames selected by an explicit list / integer array of indices
+                ops.append(['I', k, a, b, step, str(rng.choice(['list', 'array']))])
+            else:
+                ops.append(['S', k, a, b, step])
             shapes.append((len(idx) if idx else None, sp))
         else:
             cands = [j for j, (Tj, spj) in enumerate(shapes) if Tj is not None and spj == sp and j != k]
@@ -81,7 +85,7 @@ def check_case(out: Outcome, case, tag):
             denote.append(denote[k][:, mask])
             sp_of.append([s for s, b in zip(sp_of[k], op[2]) if b])
             alive.append(True)
-        elif t == 'S':
+        elif t in 'SI':
             sel = denote[k][slice(op[2], op[3], op[4])]
             denote.append(sel)
             sp_of.append(sp_of[k])
@@ -114,7 +118,7 @@ def check_case(out: Outcome, case, tag):
         out.fail('property', f'read-{t}-in-history', case, observed=why, note=f'op #{n}: {ops[n] if n < len(ops) else "?"}')
     # non-trivial: a mode switch before a derived op, and a face crossing
     tags = [o[0] for o in ops]
-    switch_before_derived = any(tags[i] in 'DCRQ' and any(t in 'FSE' for t in tags[i + 1:]) for i in range(len(tags)))
+    switch_before_derived = any(tags[i] in 'DCRQ' and any(t in 'FSIE' for t in tags[i + 1:]) for i in range(len(tags)))
     wraps = any(np.any(np.floor(o[1:]) != np.floor(o[:-1])) for o in objs if len(o) > 1)
     if switch_before_derived and wraps:
         out.nontrivial.add(json.dumps(case, sort_keys=True))
